@@ -764,5 +764,63 @@ class Assemble(Contract):
         return dict(M=M, v=st.get(st.get(a["self"], "vector"), "ident").t)
 
 
-CONTRACTS = [Init(), GenerateModulesMap(), GenerateAssembly(), DerefCitations(), RefCitations(), SaveCitations(),
+class VectorAssemble(Contract):
+    """AbstractVector.assemble(module, *modules, **kwargs): builds the manager over [module] + modules and returns
+    its product; id and name default to "assembly"."""
+    file, qual = "moclo/moclo/core/vectors.py", "AbstractVector.assemble"
+    props = ("C01", "C03", "C09", "C17")
+    variants = ("defaults", "named")
+
+    def setup(self, ex, st, variant):
+        ex.models.elem_kind = "AbstractModule"
+        init_cells(ex, st)
+        v = abstract_entity(st, "AbstractVector", tm.V("v", INT))
+        m0 = abstract_entity(st, "AbstractModule", tm.V("m0", INT))
+        a = dict(self=v, module=m0, modules=VT(tm.V("rest", SEQI), "list"))
+        if variant == "named":
+            a["name"] = VT(tm.V("name", STR))
+            a["id"] = VT(tm.V("id", STR))
+        return a
+
+    def _ME(self, st, a):
+        M = tm.seqcat(tm.sequnit(st.get(a["module"], "ident").t), a["modules"].t)
+        v = st.get(a["self"], "ident").t
+        return M, v, tm.seqcat(M, tm.sequnit(v))
+
+    def requires(self, ex, st, a):
+        M, v, E = self._ME(st, a)
+        i, j = tm.V("i", INT), tm.V("j", INT)
+        distinct = tm.forall([i, j], tm.implies(tm.and_(tm.le(0, i), tm.lt(i, j), tm.lt(j, tm.seqlen(E))),
+                                                tm.ne(tm.seqnth(E, i), tm.seqnth(E, j))))
+        return all_wf(M, v) + [("inputs-are-distinct-objects", distinct)]
+
+    def assumes(self, ex, st, a):
+        r = tm.V("r_", REFL)
+        return [tm.forall([r], tm.app("refs_equiv", BOOL, r, r))]
+
+    def raises(self, ex, st, a):
+        M, v, E = self._ME(st, a)
+        return [("InvalidSequence", tm.or_(tm.not_(valid(v)), tm.eq(ostart(v), oend(v)), some_invalid(M)), None),
+                ("DuplicateModules", tm.or_(dup_cond(M), rcdup_cond(M)), None),
+                ("MissingModule", None, None)]
+
+    def ensures(self, ex, pre, st, a, result):
+        need_cat(ex.models)
+        M, v, E = self._ME(pre, a)
+        P = st.ghost.get("path")
+        if P is None or not isinstance(result, VObj):
+            return [("returns-the-product", tm.FALSE)]
+        want_id = a["id"].t if "id" in a else tm.S("assembly")
+        return [("product-is-cat-of-the-walk-then-the-vector-fragment",
+                 tm.eq(ex.models.rec_text(st, result), tm.concat(tm.app("cat", STR, P), frag(v)))),
+                ("product-carries-requested-id", tm.eq(st.get(result, "id").t, want_id))]
+
+    def result(self, ex, st, a):
+        st = st.fork()
+        st.ghost["path"] = tm.fresh("P", SEQI)
+        r = ex.models.sym_record(st, "CircularRecord", "product!%d" % next(tm._fresh), ann_keys=("topology",))
+        return [(st, r)]
+
+
+CONTRACTS = [Init(), GenerateModulesMap(), GenerateAssembly(), DerefCitations(), RefCitations(), SaveCitations(), VectorAssemble(),
              RestoreCitations(), AnnotateAssembly(), Assemble()]
